@@ -75,7 +75,7 @@ def run(ctx):
         report(ctx, c, r, v, hist, ' witness')
     ctx.cov['witness_verdicts'] = wv
     # 2. generated cases
-    n = 1000 if ctx.quick else 20000
+    n = 700 if ctx.quick else 20000
     cases = pf_common.gen_pf_cases(ctx, n, big_pool_every=0 if ctx.quick else 50)
     cases += pf_common.gen_pf_fullrange_cases(ctx, 40 if ctx.quick else 600)
     if not ctx.quick:                     # all (start, end) pairs of uint8 x modes, 4-thread pool
